@@ -406,12 +406,7 @@ def drv_names(case, rnd, ctx, scratch):
         if rnd.random() < 0.3:
             names = names + G.name_sequence(rnd, "mixed", 10)
         for mod, tag in ((ufn, "u"), (mfn, "m")):
-            if tag == "m":
-                # misc.filenames follows the shorter UFO-spec lists: its known gaps are isolated in the probes
-                use = [n for n in names if not any(c in n for c in '"\0') and not any(
-                    p.lower() in md.RESERVED for p in n.replace("_", ".").split("."))]
-            else:
-                use = names
+            use = names      # both modules must satisfy the same predicate (the misc.filenames gaps D12/D13 are repaired)
             prefix, suffix = rnd.choice([("", ".glif"), ("", ".glif"), ("glyphs.", ""), ("", ""), ("00000.", ".0000000000")])
             shadow = md.ShadowDir(os.path.join(scratch, "seq%d%s" % (s, tag)))
             pre = set()
@@ -549,6 +544,12 @@ def drv_probe(case, rnd, ctx, scratch):
             run_name_sequence(ufn, seq, "", ".glif", shadow, ctx)
         for s in range(4):
             run_name_sequence(ufn, G.name_sequence(rnd, "fold", 30), "", ".glif", md.ShadowDir(os.path.join(scratch, "fold%d" % s)), ctx)
+    elif p == "names-reserved-after-shift":
+        # a reserved part as typed gets "_" in front; the second clip then cuts a later part down to a reserved word
+        for mod in (ufn, mfn):
+            mod.userNameToFileName("con." + "x" * 241 + ".con1", existing=set(), suffix=".glif")
+            mod.userNameToFileName("aux." + "y" * 239 + ".nul1", existing=set(), prefix="glyphs.")
+            mod.userNameToFileName("prn." + "z" * 246 + ".com12", existing=set())
     elif p == "names-misc-reserved":
         for n in ("com5", "com9", "lpt4", "lpt9", "com7.alt"):
             mfn.userNameToFileName(n, existing=set())
